@@ -519,6 +519,13 @@ class Applied:
         return what, want, got, nontrivial
 
 
+def fn_snapshot(fn):
+    """What a later wrap must leave alone on a function object."""
+    return {'dict': sorted((k, id(v)) for k, v in vars(fn).items()), 'defaults': repr(fn.__defaults__),
+            'kwdefaults': repr(fn.__kwdefaults__), 'annotations': sorted(getattr(fn, '__annotations__', {}) or {}),
+            'doc': fn.__doc__, 'name': fn.__name__, 'qualname': fn.__qualname__, 'module': fn.__module__}
+
+
 def check_variant(t, spec, variant, f, names, part, calls=None):
     """Signature + metadata comparison, then the call shapes (calls=None: all of them)."""
     shape = variant_shape(variant)
@@ -526,6 +533,7 @@ def check_variant(t, spec, variant, f, names, part, calls=None):
     inj = variant.get('injected')
     if inj:
         shape = shape.replace('injected', 'injected(%s)' % param_class(names, inj))
+    f_before = fn_snapshot(f)
     ap = Applied(spec, variant, f, names)
     # violations are grouped by signature and tag set: the only tag marks the input class of the defect the design
     # phase found (a required argument added to a function whose positional arguments have defaults), so that a
@@ -584,6 +592,26 @@ def check_variant(t, spec, variant, f, names, part, calls=None):
         bad('metadata:__wrapped__', 'the wrapped function', repr(getattr(w, '__wrapped__', '<missing>')))
     if inspect.iscoroutinefunction(f) != inspect.iscoroutinefunction(w):
         bad('async:coroutine function', inspect.iscoroutinefunction(f), inspect.iscoroutinefunction(w))
+    # ---- the wrapped function itself is not modified - neither by this wrap nor when the product is wrapped again
+    if fn_snapshot(f) != f_before:
+        bad('wrapped-function-modified', f_before, fn_snapshot(f))
+    if part == 'metadata' or variant_shape(variant) == 'plain':
+        from boltons import funcutils
+        w_before = fn_snapshot(w)
+        for hide in (False, True):
+            try:
+                w2 = funcutils.wraps(w, hide_wrapped=hide)(lambda *a, **k: None)
+            except Hang:
+                raise
+            except Exception as e:
+                bad('rewrap:raised', 'a function', 'raised %s' % type(e).__name__)
+                continue
+            if fn_snapshot(w) != w_before or getattr(w, '__wrapped__', None) is not f:
+                bad('rewrap:first-product-modified-by-the-second-wrap', w_before, fn_snapshot(w))
+            if hide and hasattr(w2, '__wrapped__'):
+                bad('rewrap:hide_wrapped-ignored', 'no __wrapped__', repr(w2.__wrapped__))
+            if not hide and getattr(w2, '__wrapped__', None) is not w:
+                bad('rewrap:metadata:__wrapped__', 'the wrapped function', repr(getattr(w2, '__wrapped__', None)))
     # ---- calls
     if calls is None:
         added = [n for n, _ in expected_items(variant.get('expected'))]
